@@ -13,3 +13,4 @@ import GoguVerif.Kinds.Funcs
 import GoguVerif.Theorems.C01
 import GoguVerif.Theorems.C02
 import GoguVerif.Theorems.C05
+import GoguVerif.Theorems.C06
